@@ -66,7 +66,7 @@ def enorm(expr, fn):
     return norm(expanded(expr, fn))
 
 
-def inline_helpers(fn, find_method, max_body=12):
+def inline_helpers(fn, find_method, max_body=12, only=None):
     """Copy of fn in which statement-level calls `self.<helper>(args)` (and `x = self.<helper>(args)` for helpers that
     are a single `return <expr>`) of small private helpers are replaced by the helper's body, parameters substituted.
     `find_method(name)` returns the helper's FunctionDef or None."""
@@ -77,7 +77,8 @@ def inline_helpers(fn, find_method, max_body=12):
                 and call.func.value.id == "self":
             h = find_method(call.func.attr)
             if h is not None and h is not fn and h.name != fn.name and len(h.body) <= max_body \
-                    and not any(isinstance(x, (ast.Yield, ast.YieldFrom)) for x in ast.walk(h)):
+                    and not any(isinstance(x, (ast.Yield, ast.YieldFrom)) for x in ast.walk(h)) \
+                    and (only is None or any(only(x) for x in ast.walk(h))):
                 return h
         return None
 
@@ -212,3 +213,270 @@ def positive_atoms(conds):
     for t, pol in conds:
         add(t, pol)
     return true, false
+
+
+def _bind_call(h, call):
+    ps = [a.arg for a in h.args.args]
+    if ps and ps[0] in ("self", "cls") and not any(
+            isinstance(d, ast.Name) and d.id == "staticmethod" for d in h.decorator_list):
+        ps = ps[1:]
+    m = {}
+    for i, a in enumerate(call.args):
+        if i < len(ps) and not isinstance(a, ast.Starred):
+            m[ps[i]] = a
+    for k in call.keywords:
+        if k.arg:
+            m[k.arg] = k.value
+    return m
+
+
+def helper_view(h, call):
+    """copy of helper `h` as seen from the call `self.h(args)`: parameters replaced by the argument expressions, every
+    node positioned at the call, parent pointers set (the copy's parent is the call)"""
+    m = _bind_call(h, call)
+    hb = copy.deepcopy(h)
+    hb.body = [substitute_stmt(b, m) for b in hb.body]
+    for n in ast.walk(hb):
+        if hasattr(n, "lineno"):
+            n.lineno = call.lineno
+        for ch in ast.iter_child_nodes(n):
+            ch._parent = n
+    hb._parent = call
+    return hb
+
+
+def calls_through_helpers(fn, find_method, depth=3, _seen=(), want=None, _memo=None):
+    """every Call node of fn and, transitively, of the same-class helpers it calls as self.<helper>(…) /
+    cls.<helper>(…), the helpers' bodies being expressed in the caller's terms (see helper_view). With `want`
+    (predicate on Call nodes) only helpers that transitively contain a wanted call are expanded."""
+    memo = {} if _memo is None else _memo
+
+    def has_wanted(h, d, seen):
+        key = (h.name, d)
+        if key in memo:
+            return memo[key]
+        memo[key] = False
+        r = False
+        for c in ast.walk(h):
+            if isinstance(c, ast.Call):
+                if want(c):
+                    r = True
+                    break
+                if d > 0 and isinstance(c.func, ast.Attribute) and isinstance(c.func.value, ast.Name) \
+                        and c.func.value.id in ("self", "cls"):
+                    h2 = find_method(c.func.attr)
+                    if h2 is not None and h2.name not in seen and has_wanted(h2, d - 1, seen + (h2.name,)):
+                        r = True
+                        break
+        memo[key] = r
+        return r
+
+    out = []
+    for c in ast.walk(fn):
+        if not isinstance(c, ast.Call):
+            continue
+        out.append(c)
+        if depth > 0 and isinstance(c.func, ast.Attribute) and isinstance(c.func.value, ast.Name) \
+                and c.func.value.id in ("self", "cls"):
+            h = find_method(c.func.attr)
+            if h is not None and h.name not in _seen and h.name != getattr(fn, "name", None):
+                if want is not None and not has_wanted(h, depth - 1, _seen + (h.name,)):
+                    continue
+                out += calls_through_helpers(helper_view(h, c), find_method, depth - 1, _seen + (h.name,), want, memo)
+    return out
+
+
+def single_assignments(fn):
+    """{local: expression} for locals bound exactly once by a plain assignment (any expression), parameters excluded"""
+    count, val = {}, {}
+    for n in ast.walk(fn):
+        if isinstance(n, ast.Assign):
+            for t in n.targets:
+                for x in ast.walk(t):
+                    if isinstance(x, ast.Name):
+                        count[x.id] = count.get(x.id, 0) + 1
+                        if x is t:
+                            val[x.id] = n.value
+        elif isinstance(n, (ast.AugAssign, ast.AnnAssign, ast.For, ast.comprehension, ast.NamedExpr)):
+            for x in ast.walk(n.target):
+                if isinstance(x, ast.Name):
+                    count[x.id] = count.get(x.id, 0) + 2
+        elif isinstance(n, ast.withitem) and n.optional_vars is not None:
+            for x in ast.walk(n.optional_vars):
+                if isinstance(x, ast.Name):
+                    count[x.id] = count.get(x.id, 0) + 2
+    params = {a.arg for a in fn.args.args + fn.args.kwonlyargs}
+    return {k: v for k, v in val.items() if count.get(k) == 1 and k not in params}
+
+
+def fully_expanded(expr, fn, rounds=4):
+    """expr with every single-assignment local replaced by its defining expression (textual comparison of arguments
+    across `x = f(a); g(x)` and `g(f(a))`)"""
+    m = single_assignments(fn)
+    for _ in range(rounds):
+        new = substitute(expr, m)
+        if ast.dump(new) == ast.dump(expr):
+            break
+        expr = new
+    return expr
+
+
+def set_parents(root):
+    for n in ast.walk(root):
+        for ch in ast.iter_child_nodes(n):
+            ch._parent = n
+    return root
+
+
+def _comp_to_loops(comp, leaf_stmt):
+    """nested For / If statements equivalent to the generators of a comprehension, with leaf_stmt innermost"""
+    body = [leaf_stmt]
+    for g in reversed(comp.generators):
+        for t in reversed(g.ifs):
+            body = [ast.If(test=t, body=body, orelse=[])]
+        body = [ast.For(target=g.target, iter=g.iter, body=body, orelse=[], type_comment=None)]
+    return body
+
+
+def desugar_comprehensions(fn):
+    """Copy of fn where list comprehensions in statement position become explicit loops, so that a rule written for
+    the loop form reads both forms:
+        x = [e for a in A if c]            ->  x = []; for a in A: if c: x.append(e)
+        x += [e for …]                     ->  for …: x.append(e)
+        return [e for …]                   ->  _result = []; for …: _result.append(e); return _result
+        x = sum([e for …], start=[])       ->  x = []; for …: x += e
+    Comprehensions nested inside larger expressions are left alone."""
+    fn = copy.deepcopy(fn)
+
+    def app(name, elt, at):
+        return ast.Expr(value=ast.Call(func=ast.Attribute(value=ast.Name(id=name, ctx=ast.Load()), attr="append",
+                                                          ctx=ast.Load()), args=[elt], keywords=[]))
+
+    def conv(s):
+        if isinstance(s, ast.Assign) and len(s.targets) == 1 and isinstance(s.targets[0], ast.Name):
+            name, v = s.targets[0].id, s.value
+            if isinstance(v, ast.ListComp):
+                return [ast.Assign(targets=[ast.Name(id=name, ctx=ast.Store())], value=ast.List(elts=[], ctx=ast.Load()))] \
+                    + _comp_to_loops(v, app(name, v.elt, s))
+            if isinstance(v, ast.Call) and isinstance(v.func, ast.Name) and v.func.id == "sum" and v.args \
+                    and isinstance(v.args[0], (ast.ListComp, ast.GeneratorExp)):
+                start = next((k.value for k in v.keywords if k.arg == "start"), v.args[1] if len(v.args) > 1 else None)
+                if isinstance(start, ast.List) and not start.elts:
+                    leaf = ast.AugAssign(target=ast.Name(id=name, ctx=ast.Store()), op=ast.Add(), value=v.args[0].elt)
+                    return [ast.Assign(targets=[ast.Name(id=name, ctx=ast.Store())], value=start)] \
+                        + _comp_to_loops(v.args[0], leaf)
+        if isinstance(s, ast.AugAssign) and isinstance(s.op, ast.Add) and isinstance(s.target, ast.Name) \
+                and isinstance(s.value, ast.ListComp):
+            return _comp_to_loops(s.value, app(s.target.id, s.value.elt, s))
+        if isinstance(s, ast.Return) and isinstance(s.value, ast.ListComp):
+            return [ast.Assign(targets=[ast.Name(id="_result", ctx=ast.Store())], value=ast.List(elts=[], ctx=ast.Load()))] \
+                + _comp_to_loops(s.value, app("_result", s.value.elt, s)) \
+                + [ast.Return(value=ast.Name(id="_result", ctx=ast.Load()))]
+        return None
+
+    def rewrite(stmts):
+        out = []
+        for s in stmts:
+            for field in ("body", "orelse", "finalbody"):
+                if hasattr(s, field) and isinstance(getattr(s, field), list):
+                    setattr(s, field, rewrite(getattr(s, field)))
+            if isinstance(s, ast.Try):
+                for h in s.handlers:
+                    h.body = rewrite(h.body)
+            new = conv(s)
+            if new is None:
+                out.append(s)
+            else:
+                for b in new:
+                    for x in ast.walk(b):
+                        if not hasattr(x, "lineno") or x.lineno is None:
+                            x.lineno = s.lineno
+                            x.col_offset = s.col_offset
+                            x.end_lineno = getattr(s, "end_lineno", s.lineno)
+                            x.end_col_offset = getattr(s, "end_col_offset", 0)
+                    out.append(b)
+        return out
+    fn.body = rewrite(fn.body)
+    return set_parents(fn)
+
+
+def names_behind(expr, fn, rounds=4):
+    """local names an expression is built from, following single-assignment locals (x = f(y); return x -> {x, y})"""
+    m = single_assignments(fn)
+    names = set()
+    for _ in range(rounds):
+        new = {x.id for x in ast.walk(expr) if isinstance(x, ast.Name)} - names
+        if not new:
+            break
+        names |= new
+        expr = ast.Tuple(elts=[m[k] for k in sorted(new) if k in m], ctx=ast.Load())
+    return names
+
+
+def _single_return(h):
+    body = [b for b in h.body if not (isinstance(b, ast.Expr) and isinstance(b.value, ast.Constant))]
+    if len(body) == 1 and isinstance(body[0], ast.Return) and body[0].value is not None:
+        return body[0].value
+    return None
+
+
+def _is_private(name):
+    return name.startswith("_") and not name.startswith("__")
+
+
+def inline_private_exprs(tree, find_method_of, rounds=2, eligible=None):
+    """Copy of a module tree where, inside every method, `self.<_p>` (private property that is a single `return <expr>`)
+    and `self.<_h>(args)` (private single-return method) are replaced by that expression, parameters substituted. The
+    extracted accessor / builder then reads exactly like the code it was extracted from. `find_method_of(class name)`
+    gives name -> FunctionDef along the MRO. Returns (tree copy with parents, set of (class, helper) names inlined)."""
+    tree = copy.deepcopy(tree)
+    used = set()
+    eligible = eligible or _is_private
+
+    def is_prop(h):
+        return any(isinstance(d, ast.Name) and d.id == "property" for d in h.decorator_list)
+
+    for cls in [n for n in ast.walk(tree) if isinstance(n, ast.ClassDef)]:
+        find = find_method_of(cls.name)
+
+        class T(ast.NodeTransformer):
+            def __init__(self, cur):
+                self.cur = cur
+
+            def visit_Call(self, n):
+                self.generic_visit(n)
+                if isinstance(n.func, ast.Attribute) and isinstance(n.func.value, ast.Name) and n.func.value.id == "self" \
+                        and eligible(n.func.attr) and n.func.attr != self.cur:
+                    h = find(n.func.attr)
+                    if h is not None and not is_prop(h):
+                        r = _single_return(h)
+                        if r is not None:
+                            used.add((cls.name, h.name))
+                            new = substitute(r, _bind_call(h, n))
+                            for x in ast.walk(new):
+                                if hasattr(x, "lineno"):
+                                    x.lineno = n.lineno
+                            return ast.copy_location(new, n)
+                return n
+
+            def visit_Attribute(self, n):
+                self.generic_visit(n)
+                if isinstance(n.ctx, ast.Load) and isinstance(n.value, ast.Name) and n.value.id == "self" \
+                        and eligible(n.attr) and n.attr != self.cur:
+                    h = find(n.attr)
+                    if h is not None and is_prop(h):
+                        r = _single_return(h)
+                        if r is not None:
+                            used.add((cls.name, h.name))
+                            new = copy.deepcopy(r)
+                            for x in ast.walk(new):
+                                if hasattr(x, "lineno"):
+                                    x.lineno = n.lineno
+                            return ast.copy_location(new, n)
+                return n
+
+        for _ in range(rounds):
+            for i, f in enumerate(cls.body):
+                if isinstance(f, ast.FunctionDef):
+                    cls.body[i] = T(f.name).visit(f)
+    return set_parents(tree), used
